@@ -394,6 +394,13 @@ func packageState(repo string) {
 			}
 		}
 	}
+	// maps and slices that the code only ever reads (indexing, ranging, len, membership tests) are tables, not state
+	written := writtenVars(repo, dirs)
+	for i := range out {
+		if (out[i].Kind == "map" || out[i].Kind == "slice") && written[out[i].Pkg+"."+out[i].Name] == "" {
+			out[i].Kind = "table"
+		}
+	}
 	sort.Slice(out, func(i, j int) bool {
 		if out[i].Pkg != out[j].Pkg {
 			return out[i].Pkg < out[j].Pkg
@@ -403,6 +410,194 @@ func packageState(repo string) {
 	enc := json.NewEncoder(os.Stdout)
 	enc.SetEscapeHTML(false)
 	must(enc.Encode(out))
+}
+
+// writtenVars: for every package-level variable of the given directories, the first use found (in any of them) that
+// may modify what it holds or let a reference to it escape: assignment to it or to one of its elements, ++/--, &,
+// delete / append / copy / clear, slicing, passing it whole to a function that is not a known reader, returning it,
+// storing it, calling a method on it. "" = only read. (Names shadowed by a local of the same file-level scope are
+// resolved by go/ast; a local with the same name declared in another way counts as a use: the answer errs towards
+// "written".)
+func writtenVars(repo string, dirs []string) map[string]string {
+	const module = "github.com/formancehq/numscript"
+	res := map[string]string{}
+	readers := map[string]bool{"len": true, "cap": true, "slices.Contains": true, "slices.ContainsFunc": true, "slices.Index": true,
+		"slices.IndexFunc": true, "strings.Join": true, "fmt.Sprint": true, "fmt.Sprintf": true, "fmt.Sprintln": true, "fmt.Println": true, "fmt.Printf": true}
+	pkgVars := map[string]map[string]bool{}
+	type parsed struct {
+		dir string
+		f   *ast.File
+	}
+	var files []parsed
+	for _, dir := range dirs {
+		matches, err := filepath.Glob(filepath.Join(repo, dir, "*.go"))
+		must(err)
+		sort.Strings(matches)
+		pkgVars[dir] = map[string]bool{}
+		for _, path := range matches {
+			if strings.HasSuffix(path, "_test.go") || filepath.Base(path) == "bindings.go" {
+				continue
+			}
+			f, err := parser.ParseFile(token.NewFileSet(), path, nil, 0)
+			must(err)
+			files = append(files, parsed{dir, f})
+			for _, d := range f.Decls {
+				if gd, ok := d.(*ast.GenDecl); ok && gd.Tok == token.VAR {
+					for _, sp := range gd.Specs {
+						for _, n := range sp.(*ast.ValueSpec).Names {
+							pkgVars[dir][n.Name] = true
+						}
+					}
+				}
+			}
+		}
+	}
+	calleeName := func(c *ast.CallExpr) string { return types.ExprString(c.Fun) }
+	for _, pf := range files {
+		alias := map[string]string{} // import name -> directory of a package of this module
+		for _, im := range pf.f.Imports {
+			path, _ := strconv.Unquote(im.Path.Value)
+			if path != module && !strings.HasPrefix(path, module+"/") {
+				continue
+			}
+			dir := strings.TrimPrefix(strings.TrimPrefix(path, module), "/")
+			if dir == "" {
+				dir = "."
+			}
+			name := filepath.Base(path)
+			if im.Name != nil {
+				name = im.Name.Name
+			}
+			alias[name] = dir
+		}
+		var stack []ast.Node
+		ast.Inspect(pf.f, func(n ast.Node) bool {
+			if n == nil {
+				stack = stack[:len(stack)-1]
+				return true
+			}
+			stack = append(stack, n)
+			var key string
+			var ref ast.Expr
+			switch e := n.(type) {
+			case *ast.Ident:
+				if !pkgVars[pf.dir][e.Name] {
+					return true
+				}
+				if e.Obj != nil {
+					if _, isSpec := e.Obj.Decl.(*ast.ValueSpec); !isSpec || e.Obj.Kind != ast.Var {
+						return true // a local, a parameter, a field…
+					}
+				}
+				if len(stack) >= 2 {
+					switch p := stack[len(stack)-2].(type) {
+					case *ast.SelectorExpr:
+						if p.Sel == e {
+							return true // x.Name: a field or method, or pkg.Name handled at the selector
+						}
+					case *ast.KeyValueExpr:
+						if p.Key == e {
+							return true
+						}
+					case *ast.ValueSpec:
+						for _, nm := range p.Names {
+							if nm == e {
+								return true // the declaration itself
+							}
+						}
+					case *ast.Field:
+						return true
+					}
+				}
+				key, ref = pf.dir+"."+e.Name, e
+			case *ast.SelectorExpr:
+				id, ok := e.X.(*ast.Ident)
+				if !ok || alias[id.Name] == "" || !pkgVars[alias[id.Name]][e.Sel.Name] {
+					return true
+				}
+				key, ref = alias[id.Name]+"."+e.Sel.Name, e
+			default:
+				return true
+			}
+			if res[key] != "" {
+				return true
+			}
+			// climb over element / field selections
+			cur := ast.Node(ref)
+			i := len(stack) - 2
+			indexed := false
+			for ; i >= 0; i-- {
+				switch p := stack[i].(type) {
+				case *ast.IndexExpr:
+					if p.X == cur {
+						cur, indexed = p, true
+						continue
+					}
+				case *ast.SelectorExpr:
+					if p.X == cur {
+						cur = p
+						continue
+					}
+				case *ast.ParenExpr:
+					cur = p
+					continue
+				case *ast.StarExpr:
+					cur = p
+					continue
+				}
+				break
+			}
+			if i < 0 {
+				return true
+			}
+			why := ""
+			switch p := stack[i].(type) {
+			case *ast.AssignStmt:
+				for _, l := range p.Lhs {
+					if l == cur {
+						why = "assigned"
+					}
+				}
+				if why == "" && !indexed {
+					why = "aliased by an assignment"
+				}
+			case *ast.IncDecStmt:
+				why = "incremented"
+			case *ast.UnaryExpr:
+				if p.Op == token.AND {
+					why = "address taken"
+				}
+			case *ast.RangeStmt:
+				if p.X != cur {
+					why = "assigned by a range clause"
+				}
+			case *ast.SliceExpr:
+				if p.X == cur {
+					why = "sliced"
+				}
+			case *ast.CallExpr:
+				if p.Fun == cur {
+					why = "method called on it"
+				} else if !readers[calleeName(p)] && !indexed {
+					why = "passed to " + calleeName(p)
+				} else if indexed {
+					switch calleeName(p) {
+					case "delete", "append", "copy", "clear":
+						why = "passed to " + calleeName(p)
+					}
+				}
+			case *ast.ReturnStmt, *ast.CompositeLit, *ast.KeyValueExpr, *ast.SendStmt, *ast.ValueSpec:
+				if !indexed {
+					why = "escapes"
+				}
+			}
+			if why != "" {
+				res[key] = why
+			}
+			return true
+		})
+	}
+	return res
 }
 
 // exitSites prints every os.Exit call of internal/cmd: function, nearest enclosing `if` condition, argument
@@ -430,6 +625,31 @@ func exitSites(repo string) {
 		}
 		return oi < oj
 	})
+	// integer constants of the package: `os.Exit(someName)` is reported with the value the name stands for
+	intConsts := map[string]string{}
+	for _, path := range matches {
+		if strings.HasSuffix(path, "_test.go") {
+			continue
+		}
+		f, err := parser.ParseFile(token.NewFileSet(), path, nil, 0)
+		must(err)
+		for _, d := range f.Decls {
+			gd, ok := d.(*ast.GenDecl)
+			if !ok || gd.Tok != token.CONST {
+				continue
+			}
+			for _, sp := range gd.Specs {
+				vs := sp.(*ast.ValueSpec)
+				for i, n := range vs.Names {
+					if i < len(vs.Values) {
+						if bl, ok := vs.Values[i].(*ast.BasicLit); ok && bl.Kind == token.INT {
+							intConsts[n.Name] = bl.Value
+						}
+					}
+				}
+			}
+		}
+	}
 	for _, path := range matches {
 		if strings.HasSuffix(path, "_test.go") {
 			continue
@@ -464,6 +684,11 @@ func exitSites(repo string) {
 				arg := ""
 				if len(call.Args) == 1 {
 					arg = types.ExprString(call.Args[0])
+					if id, ok := call.Args[0].(*ast.Ident); ok {
+						if v, ok := intConsts[id.Name]; ok {
+							arg = v
+						}
+					}
 				}
 				exits = append(exits, exitSite{fd.Name.Name, guard, arg})
 				return true
